@@ -1,8 +1,8 @@
 """Native (no CrossHair) replay of a counterexample against the real code.
 
 A replay file is a small runnable script that calls `run_call(harness_path, call_expr)`.
-Exit status of a replay: 1 = the violation reproduces, 0 = it does not, 3 = the replay
-itself is broken.
+Exit status of a replay: 1 = the violation reproduces, 0 = it does not, 2 = inconclusive (a bound was
+reached), 3 = the replay itself is broken.
 """
 from __future__ import annotations
 
@@ -36,6 +36,11 @@ def run_call(harness_path: str, call_expr: str, verbose: bool = True) -> int:
         if verbose:
             print(f"REPRODUCED: {call_expr} raised {type(e).__name__}: {e}")
         return 1
+    if isinstance(res, str) and res == "inconclusive":
+        if verbose:
+            detail = getattr(mod, "LAST_DETAIL", None)
+            print(f"inconclusive: {call_expr}" + (f"  [{detail}]" if detail else ""))
+        return 2
     if not res:
         if verbose:
             detail = getattr(mod, "LAST_DETAIL", None)
